@@ -24,7 +24,9 @@ the virtual-time loop with in-memory sockets -- handle_connection (parked half-c
 drain_writers, the inactivity watchdog, close_connection and the teardown of handle_client are mitmproxy's own asyncio code.
 Plans: regular (next_layer -> TCPLayer) or reverse:tcp:// with eager/lazy connect; connect ok/refused/hanging/slow; both peers
 send timed data then EOF / reset / fall silent (half-closes from either side, data after the half-close); tcp_timeout 5 s or
-600 s; drain() errors on either socket; slow async tcp_start/tcp_message/tcp_end/tcp_error (and rarely server_* lifecycle)
+600 s; drain() failing on either socket with each OSError class (ECONNRESET, EPIPE, ECONNABORTED = ConnectionError; ETIMEDOUT,
+EHOSTUNREACH, ENETUNREACH, EIO = not), once or sticky with failing reads, at the 1st-3rd drain, as a fixed matrix walked by every
+2nd handler case, followed by more data / closes from both sides; slow async tcp_start/tcp_message/tcp_end/tcp_error (and rarely server_* lifecycle)
 hooks; edits.  Monitors once the handler has returned and all tasks have drained:
   handler.single_end  every flow that fired tcp_start fired exactly one of tcp_end / tcp_error, and no tcp_message after it
   handler.no_crash    the handler logged nothing at level ERROR ("mitmproxy has crashed!", "connection handler has crashed")
@@ -47,7 +49,7 @@ BUDGET = {"quick": (2000, 18), "thorough": (60000, 200)}
 WORKERS = {"quick": 4, "thorough": 16}
 REQUIRED = [
     "source", "exact", "halfclose", "single_end", "after_end", "fault.open_failed", "fault.client_eof_first", "fault.server_eof_first", "fault.eof_during_pending_hook", "injected",
-    "handler.cases", "handler.single_end", "handler.no_crash", "handler.exact", "handler.exact_clean", "handler.halfclose_then_timeout", "handler.halfclose_then_data", "handler.idle_timeout", "handler.drain_error", "handler.reset", "handler.slow_hook",
+    "handler.cases", "handler.single_end", "handler.no_crash", "handler.exact", "handler.exact_clean", "handler.halfclose_then_timeout", "handler.halfclose_then_data", "handler.idle_timeout", "handler.drain_error", "handler.data_after_drain_error", "fault.drain_oserror_non_connection", "fault.drain_connection_error", "handler.reset", "handler.slow_hook",
 ]
 TECHNIQUE = "runtime monitoring: fault-plan sweep on the sans-io driver + reference relay model over the delivered event sequence; fault plans on the real ConnectionHandler under virtual time"
 RULE = (
@@ -378,6 +380,8 @@ def classify_handler(kind, info):
     """Mechanisms for the real-handler leg, from the plan / recorded history only."""
     if kind in ("handler:end-hooks-not-exactly-one", "handler:recorded-less-than-sent", "handler:peer-got-less-than-recorded") and info.get("lifecycle_hook_cancelled") and info.get("outcomes") == 0:
         return "no-outcome-when-upstream-attempt-cancelled-inside-lifecycle-hook"
+    if kind == "handler:end-hooks-not-exactly-one" and info.get("outcomes") == 0 and info.get("upstream_attempt_started_after_client_handler_finished"):
+        return "upstream-opened-after-client-handler-finished-is-never-torn-down"
     if kind == "handler:peer-got-less-than-recorded" and info.get("undelivered_all_pending_at_client_end"):
         return "client-side-finished-while-tcp_message-hook-pending-teardown-drops-message"
     if kind in ("handler:recorded-less-than-sent", "handler:peer-got-less-than-recorded") and info.get("eof_race"):
@@ -390,7 +394,8 @@ def run_handler(ctx):
 
     for i in ctx.cases():
         r = ctx.rng
-        plan = th.gen_plan(r)
+        # every 2nd handler case walks the fixed drain-fault matrix (errno class x socket x n-th drain x one-shot/sticky)
+        plan = th.matrix_plan(r, (i // 2) * max(1, ctx.nworkers // 4) + ctx.worker // 4) if i % 2 == 0 else th.gen_plan(r)
         try:
             res = th.run_plan(plan)
         except Exception as e:  # noqa
@@ -420,7 +425,18 @@ def run_handler(ctx):
                 eof_race = any(k == "data" and lo <= t <= hi for t, k, _ in fed[second])
         started = [h for h in tcp if h["name"] == "tcp_start"]
         ends = [h for h in tcp if h["name"] in ("tcp_end", "tcp_error")]
-        info = {"lifecycle_hook_cancelled": bool(life), "outcomes": len(ends), "eof_race": eof_race}
+        t_gone = next((h["t0"] for h in res.hooks if h["name"] == "client_disconnected"), None)
+        t_dial = next((h["t0"] for h in res.hooks if h["name"] == "server_connect"), None)
+        info = {
+            "lifecycle_hook_cancelled": bool(life),
+            "outcomes": len(ends),
+            "eof_race": eof_race,
+            # the client handler (and with it handle_client's teardown and the inactivity watchdog) was already finished when the
+            # layer, resumed by a slow tcp_start hook, asked for the upstream connection
+            "upstream_attempt_started_after_client_handler_finished": t_gone is not None and t_dial is not None and t_dial >= t_gone - 1e-3,
+        }
+        if info["upstream_attempt_started_after_client_handler_finished"]:
+            ctx.count("handler.upstream_opened_after_client_left")
         witness = {
             "leg": "handler",
             "plan": plan,
@@ -429,6 +445,7 @@ def run_handler(ctx):
             "error_logs": [(round(t - 1_000_000, 3), m, tb[-300:]) for t, m, tb in res.error_logs][:3],
             "closed_at": {k: round(v - 1_000_000, 3) for k, v in res.closed_at.items()},
             "cancelled_hooks": cancelled,
+            "tasks_left_at_quiescence": res.tasks_left[:5],
         }
         # ---- no crash
         ctx.count("handler.no_crash")
@@ -443,6 +460,10 @@ def run_handler(ctx):
                 ctx.violation("handler:message-hook-after-end-hook", witness)
             elif plan["clean"] and ends[0]["name"] != "tcp_end":
                 ctx.violation("handler:clean-plan-ended-with-error", witness)
+            elif ends[0]["name"] == "tcp_end" and any(f.live for f in res.flows.values()):
+                ctx.violation("handler:flow-still-live-after-tcp_end", witness)
+            elif ends[0]["name"] == "tcp_error" and any(f.live for f in res.flows.values()):
+                ctx.count("handler.flow_live_after_tcp_error")  # not part of the statement: counted only
         # ---- exactness per direction
         t_client_end = next((h["t0"] for h in res.hooks if h["name"] == "client_disconnected"), None)
         clean = plan["clean"]
@@ -489,6 +510,10 @@ def run_handler(ctx):
             ctx.count("handler.idle_timeout")
         if res.drain_errors:
             ctx.count("handler.drain_error")
+            ctx.count("fault.drain_oserror_non_connection" if res.drain_errors[0][2] in th.NON_CONNECTION else "fault.drain_connection_error")
+            ctx.seen("drain_fault_cells", f"{res.drain_errors[0][2]}/{res.drain_errors[0][1]}/{'sticky' if res.drain_errors[0][3] else 'once'}/more-data-after={any(k == 'data' and t > res.drain_errors[0][0] for s_ in 'cs' for t, k, _ in fed[s_])}")
+            if any(k == "data" and t > res.drain_errors[0][0] for s_ in "cs" for t, k, _ in fed[s_]):
+                ctx.count("handler.data_after_drain_error")
         if any(k == "reset" for s in "cs" for _, k, _ in fed[s]):
             ctx.count("handler.reset")
         slow = sorted({h["name"] for h in tcp if h["t1"] is not None and h["t1"] - h["t0"] > 0.1})
@@ -499,7 +524,7 @@ def run_handler(ctx):
         if eof_race:
             ctx.count("handler.eof_race")
         seq = tuple(n for n in names if n.startswith("tcp_"))
-        sig = ("handler", plan["mode"], plan["connection_strategy"], plan["connect"], plan["client_end"], plan["origin_end"], plan["tcp_timeout"], bool(plan["drain_fault"]), tuple(slow), tuple(cancelled), (seq[:1], len(seq), seq[-1:]))
+        sig = ("handler", plan.get("matrix"), plan["mode"], plan["connection_strategy"], plan["connect"], plan["client_end"], plan["origin_end"], plan["tcp_timeout"], bool(plan["drain_fault"]), tuple(slow), tuple(cancelled), (seq[:1], len(seq), seq[-1:]))
         ctx.seen("handler_hook_sequences", ",".join(names)[:300])
         ctx.case(sig, bool(started), {"leg": "handler", "plan": {k: plan[k] for k in ("mode", "connect", "client", "origin", "tcp_timeout", "drain_fault")}, "hooks": names})
 
